@@ -995,11 +995,63 @@ fn c12_oracles(_plan: &Plan) -> Vec<Box<dyn Oracle>> {
     with_states(vec![Box::new(ModeOracle::new("C12"))])
 }
 
+/// Long round trips, an idle sender, and a stretch during which every data frame is lost while
+/// sync and ack frames get through: the retransmission back-off of a lone Reliable packet races
+/// the sender's own sync timer.
+fn c12_gen_idle_backoff(seed: u64, run: u64, _thorough: bool) -> Plan {
+    let mut r = Rng::keyed(&[seed, run, 0xc12b]);
+    let mut plan = Plan::new("C12", "a_idle_backoff", seed, run);
+    plan.fate_seed = Some(crate::rng::key(&[seed, run, 0xfa7e]));
+    let mut setup = ASetup::default_like();
+    setup.packet_base = [r.u32() & 0xFFFFF, r.u32() & 0xFFFFF];
+    setup.frame_base = [r.u32(), r.u32()];
+    setup.keepalive = [if r.chance(0.5) { Some(r.range(500, 5000)) } else { None }, Some(5000)];
+    plan.endpoints = setup.endpoints();
+    plan.push(0, 0, Op::Create { ep: 0 });
+    plan.push(0, 1, Op::Create { ep: 1 });
+    let one_way = r.range(100_000, 600_000);
+    plan.push(0, 2, Op::Link { from: None, to: None, rule: clean_rule(one_way) });
+    let rtt = 2 * one_way;
+    // warm-up on a clean link so that the RTT estimate is in place
+    let mut tag = 0u32;
+    let mut t = 50_000;
+    for _ in 0..r.range(2, 8) {
+        plan.push(t, 0x4000_0000 + tag, Op::Send { ep: 0, to: None, ch: r.below(3) as u8, mode: *r.pick(&[MODE_RELIABLE, MODE_PERSISTENT, MODE_UNRELIABLE]), len: r.range(12, 2000) as u32, tag });
+        tag += 1;
+        t += r.range(rtt / 2, 2 * rtt);
+    }
+    let mut t = t + 3 * rtt;
+    for _ in 0..r.range(1, 4) {
+        // a lone packet (or two), then data frames vanish for a while
+        for _ in 0..r.range(1, 2) {
+            plan.push(t, 0x4000_0000 + tag, Op::Send { ep: 0, to: None, ch: r.below(3) as u8, mode: *r.pick(&[MODE_RELIABLE, MODE_RELIABLE, MODE_PERSISTENT]), len: r.range(12, 1400) as u32, tag });
+            tag += 1;
+        }
+        let mut lossy = clean_rule(one_way);
+        lossy.drop_types = 1 << 10;
+        lossy.drop_types_p = 1.0;
+        plan.push(t.saturating_sub(1000), 2, Op::Link { from: Some(0), to: Some(1), rule: lossy });
+        let outage = r.range(rtt, 14 * rtt);
+        plan.push(t + outage, 2, Op::Link { from: Some(0), to: Some(1), rule: clean_rule(one_way) });
+        t += outage + r.range(4 * rtt, 12 * rtt);
+    }
+    let horizon = t + 20 * rtt + 10_000_000;
+    let p0 = r.range(5_000, 60_000);
+    let p1 = r.range(5_000, 60_000);
+    plan.push(r.below(p0), 3, Op::StepEvery { ep: 0, period_us: p0, until_us: horizon });
+    plan.push(r.below(p1), 3, Op::StepEvery { ep: 1, period_us: p1, until_us: horizon });
+    plan.end_us = horizon;
+    plan.sort();
+    plan
+}
+
 pub fn c12() -> CheckDef {
     CheckDef {
         property: "C12",
         families: vec![Family { name: "b_modes", world: "B", weight: 1, gen: c12_gen_b, oracles: c12_oracles, adversary: None, keep_workload: false, custom: None,
             what: "the same wire-log oracle on real Client/Server traffic (default windows, several clients per server)" },
+        Family { name: "a_idle_backoff", world: "A", weight: 1, gen: c12_gen_idle_backoff, oracles: c12_oracles, adversary: None, keep_workload: false, custom: None,
+            what: "round trips of 0.2-1.2 s, an otherwise idle sender, lone Reliable/Persistent packets whose data frames are all lost for 1-14 round trips while sync and ack frames get through: the retransmission back-off races the sender's sync timer; a Reliable packet may only be given up once the receiver has read all of it" },
         Family { name: "a_modes", world: "A", weight: 3, gen: c12_gen, oracles: c12_oracles, adversary: None, keep_workload: false, custom: None,
             what: "mixed modes, packets cut across flushes, acks arriving between fragments, losses and duplicates; every (packet id, fragment id) occurrence on the wire is attributed to its submission: Unreliable/TimeSensitive at most once, TimeSensitive begun by the first step() after send(), nothing re-emitted after its acknowledgement was processed or after the receiver moved past the packet" }],
         panic_is_violation: no_panics,
@@ -1011,7 +1063,7 @@ pub fn c12() -> CheckDef {
         stubs: STUB_A,
         assumptions: vec![
             "the retransmit-until-acknowledged half is decided as bounded liveness by C02 (Reliable) and by quiescence (Persistent): this check decides the at-most-once / never-again clauses on every emission",
-            "'acknowledgement processed' is taken from the trace tap FrameAcked; 'receiver moved past' from the ack frames the sender read (their packet window base, validated against what was sent), not from the sender's own bookkeeping; an emission in a later call is a violation",
+            "'acknowledgement processed' is taken from the trace taps AckGroupAccepted (every frame whose bit an accepted group sets) and FrameAcked; a fragment may be marked acknowledged (tap FragmentAcked) only if such a frame carried it on the wire; 'receiver moved past' from the ack frames the sender read (their packet window base, validated against what was sent), not from the sender's own bookkeeping; an emission in a later call is a violation",
         ],
     }
 }
@@ -1056,12 +1108,58 @@ fn c13_oracles(_plan: &Plan) -> Vec<Box<dyn Oracle>> {
     with_states(vec![Box::new(RateOracle::new("C13"))])
 }
 
+/// A victim that owes far more acknowledgement groups than it may send: a connected peer floods
+/// it with empty data frames whose ids are 32 apart (every frame opens a new group) and
+/// acknowledges the victim's own traffic now and then, so that the victim has an RTT estimate.
+fn c13_gen_ack_flood(seed: u64, run: u64, thorough: bool) -> Plan {
+    let mut plan = c06_gen_hostile(seed, run, thorough, true);
+    plan.property = "C13".into();
+    plan.scenario = "a_ack_flood".into();
+    let mut r = Rng::keyed(&[seed, run, 0xc13f]);
+    let ceiling = *r.pick(&[1472u32, 5000, 20_000, 100_000, 1_000_000]);
+    if let EndpointKind::Hc { spec, .. } = &mut plan.endpoints[0].kind {
+        spec.tx_bandwidth_limit = ceiling;
+    }
+    // the link's delay gives the burst allowance ceiling x RTT some size
+    let latency = r.range(1_000, 400_000);
+    for t in plan.timeline.iter_mut() {
+        if let Op::Link { rule, .. } = &mut t.op {
+            rule.latency_us = latency;
+        }
+    }
+    let horizon = r.range(10, 30) * 1_000_000;
+    // the victim steps rarely (its credit refills to the full burst allowance in between, and
+    // hundreds of groups pile up), the flood arrives in bursts of up to 2500 frames per step
+    plan.timeline.retain(|t| t.t_us <= horizon && !matches!(t.op, Op::Step { ep: 0 } | Op::Flush { ep: 0 } | Op::StepEvery { ep: 0, .. }));
+    plan.push(r.below(10_000), 3, Op::StepEvery { ep: 0, period_us: r.range(50_000, 1_000_000), until_us: horizon });
+    plan.end_us = horizon;
+    // the victim has traffic of its own
+    let n_pk = r.range(10, 200);
+    let mut w = Workload::sample(&mut r, n_pk, 3000);
+    w.lead_pattern_p = 0.0;
+    w.sends(&mut r, &mut plan, 0, None, 100_000, 2_000_000, 0);
+    // the flood begins once the victim has exchanged some traffic (and holds an RTT estimate)
+    plan.params.insert("hostile_start_us".into(), r.range(3_000_000, 6_000_000) as f64);
+    plan.params.insert("flood_with_acks".into(), 1.0);
+    plan.params.insert("hostile_max".into(), r.range(20_000, 120_000) as f64);
+    plan.sort();
+    plan
+}
+
+fn c13_adv(plan: &Plan) -> Option<Box<dyn Adversary>> {
+    let mut h = Hostile::new(plan, vec![(0, 1)]);
+    h.set_rate(1.0, 2500);
+    Some(Box::new(h))
+}
+
 pub fn c13() -> CheckDef {
     CheckDef {
         property: "C13",
-        families: vec![Family { name: "b_rate", world: "B", weight: 1, gen: c13_gen_b, oracles: c13_oracles, adversary: None, keep_workload: false, custom: None,
+        families: vec![Family { name: "b_rate", world: "B", weight: 2, gen: c13_gen_b, oracles: c13_oracles, adversary: None, keep_workload: false, custom: None,
             what: "real Client/Server: ceiling = min(local max_send_rate, peer max_receive_rate) from the two endpoint configurations" },
-        Family { name: "a_rate", world: "A", weight: 3, gen: c13_gen, oracles: c13_oracles, adversary: None, keep_workload: false, custom: None,
+        Family { name: "a_ack_flood", world: "A", weight: 1, gen: c13_gen_ack_flood, oracles: c13_oracles, adversary: Some(c13_adv), keep_workload: false, custom: None,
+            what: "a sender with traffic of its own and a ceiling of 1472 B/s..1 MB/s whose connected peer floods it with empty data frames 32 ids apart (every frame opens a new acknowledgement group: hundreds of groups owed per flush) and acknowledges some of its frames; link delays up to 0.4 s so that the burst allowance ceiling x RTT has some size" },
+        Family { name: "a_rate", world: "A", weight: 6, gen: c13_gen, oracles: c13_oracles, adversary: None, keep_workload: false, custom: None,
             what: "ceilings 1472 B/s..50 MB/s on either side, backlogs of hundreds to thousands of packets, cadences from several flushes per step to seconds between steps, pauses, loss and feedback patterns; every window of data/sync/ack frames is checked against ceiling x (duration + largest RTT estimate held) + 1472" }],
         panic_is_violation: no_panics,
         hang_is_violation: false,
@@ -1432,7 +1530,7 @@ pub fn c10() -> CheckDef {
         property: "C10",
         families: vec![
             Family { name: "b_silence", world: "B", weight: 16, gen: c10_gen_silence, oracles: c10_oracles, adversary: None, keep_workload: false, custom: None,
-                what: "active timeouts 0.2-60 s chosen independently per side, keepalive on/off (0.1-30 s), the handshake loses its first k = 0..10 SYNs or SYN-ACKs (swept by run index), busy or idle connections, blackouts of 0.1-70 s in one or both directions, clocks skewed by +-2 % and jumping forward by 0.1-5 s, step periods 1-400 ms with jitter and stalls; every Error(Timeout) and every step is checked against the endpoint's own clock" },
+                what: "active timeouts 0.2-60 s chosen independently per side, keepalive on/off (0.1-30 s), the handshake loses its first k = 0..10 SYNs or SYN-ACKs (swept by run index), busy or idle connections, blackouts of 0.1-70 s in one or both directions, clocks skewed by +-2 % and jumping forward by 0.1-5 s, step periods 1-400 ms with jitter and stalls, a trickle of non-frame datagrams (several per step) at one endpoint; every Error(Timeout) and every step is checked against the endpoint's own clock" },
             Family { name: "b_retry_budget", world: "B", weight: 6, gen: c10_gen_retry, oracles: c10_oracles, adversary: None, keep_workload: false, custom: None,
                 what: "unanswered handshakes (no server, total blackout, SYN-ACKs lost) and disconnect_now() into a blackout: exactly 1 + 10 transmissions at least 2 s apart, Error(Timeout) no earlier than 22 s after the first" },
             Family { name: "b_idle_keepalive", world: "B", weight: 1, gen: c10_gen_idle, oracles: c10_oracles, adversary: None, keep_workload: false, custom: None,
